@@ -31,6 +31,18 @@ def unit_cells(ctx, rng):
            ("trinon2", eg.tri_non_lattice(2))]
     for N in ([3, 4, 6, 10] if quick else [3, 3, 4, 5, 6, 8, 10, 15, 20, 30]):
         out.append((f"vor{N}", zoo.voronoi(rng, N)))
+    # every kind of crossing must occur: single-axis, corner (+1,+1)/(-1,-1) and anti-diagonal corner (+1,-1)/(-1,+1) edges
+    out.append(("all-crossings", Lattice(np.array([[0.2, 0.3], [0.7, 0.6], [0.4, 0.8]]),
+                                         np.array([[0, 1], [1, 2], [2, 0], [0, 1], [1, 2], [2, 0], [0, 2], [1, 0]]),
+                                         np.array([[0, 0], [0, 0], [0, 0], [1, -1], [-1, 1], [1, 1], [-1, 0], [0, 1]]))))
+    found = 0
+    for t in range(200):
+        if found >= (2 if quick else 6):
+            break
+        l = zoo.voronoi(rng, int(rng.integers(3, 12)))
+        c = l.edges.crossing
+        if np.any((c[:, 0] * c[:, 1]) == -1):
+            out.append((f"vor-antidiag#{found}", l)); found += 1
     small = zoo.voronoi(rng, 3)
     out.append(("tiled-vor3", eg.tile_unit_cell(small.vertices.positions, small.edges.indices, small.edges.crossing, [2, 1])))
     return out
@@ -117,6 +129,25 @@ def run(ctx):
                 w = [int(round(jj * SJ)) * int(uu) for jj, uu in zip(Js, u)]
                 reqs.append(dict(op="bloch", nV=n, edges=Ed.tolist(), cross=C.tolist(), w=w, qs=qs))
                 meta.append((tag, l, Hk, qs))
+    # ---- the momentum grid for every sampling number up to 130 per axis (one axis at a time, on a two-site cell): exactly k_num points 2*pi*m/k_num per axis
+    l2 = eg.honeycomb_lattice(1)
+    u2 = np.ones(l2.n_edges, dtype=np.int8)
+    Hk2 = ps.k_hamiltonian_generator(l2, None, u2, np.array([1.0, 1.0, 1.0]))
+    for nk in range(1, 131 if quick else 401):
+        for knum in ([nk, 1], [1, nk]) + (() if nk > 12 else (nk,)):
+            kx_n, ky_n = (knum, knum) if np.isscalar(knum) else knum
+            rep = lambda what, **kw: ctx.impl_violation(f"grid k_num={knum}: {what}", dict(case=f"grid{knum}", generator="honeycomb_lattice(1)", k_num=knum, **kw))
+            try:
+                gs, gp, klist, en = ps.analyse_hk(Hk2, knum, return_all_results=True)
+            except Exception as ex:
+                rep(f"analyse_hk raised {type(ex).__name__}: {ex}"); continue
+            ks = np.array([(2 * np.pi * a / kx_n, 2 * np.pi * b / ky_n) for b in range(ky_n) for a in range(kx_n)])
+            if np.shape(klist) != ks.shape or not np.allclose(klist, ks, atol=1e-12) or np.shape(en)[0] != kx_n * ky_n:
+                rep(f"analyse_hk samples {np.shape(klist)[0]} momenta, the grid 2*pi*m/k_num has {kx_n * ky_n} (or the momenta differ from the grid)"); continue
+            ev = np.array([np.linalg.eigvalsh(Hk2(k)) for k in ks])
+            if abs(gs - ev[:, : ev.shape[1] // 2].mean()) > 1e-9 or abs(gp - np.abs(ev).min()) > 1e-9:
+                rep("analyse_hk does not report the mean of the lower half / the smallest |E| on the grid"); continue
+            ctx.case(("grid", str(knum)), nontrivial=True)
     outs = core.Driver().run_parallel(reqs)
     for (tag, l, Hk, qs), o in zip(meta, outs):
         brk = lambda what: ctx.corr_break(f"{tag}: {what}", dict(case=tag, lattice=zoo.lat_to_json(l)))
